@@ -369,6 +369,15 @@ def task_forves(spec, summ):
     op["desc"] = desc
     mode = rf.choice(["true", "true", "true", "false", "parsing", "garbage", "missing"])
     op["env"] = {"tmp_name": "t", "forves_present": mode != "missing", "forves_plan": [mode] * 200}
+    op["forves_mode"] = mode
+    return judge_forves(op, summ)
+
+
+def judge_forves(op, summ):
+    """All forves clauses for one explicit op (task and replay share it)."""
+    viols = []
+    mode = op["forves_mode"]
+    desc = op["desc"]
     st, res = C.run_child(op)
     if st != "ok":
         summ["inconclusive"] += 1
@@ -491,6 +500,13 @@ def task(spec):
 
 
 def replay(rp):
+    if rp["kind"] == "forves":
+        summ = {"evals": 0, "keys": [], "probes": {}, "faults": {}, "samples": [], "inconclusive": 0}
+        op = rp["op"]
+        if "forves_mode" not in op:
+            op["forves_mode"] = (op.get("env", {}).get("forves_plan") or ["true"])[0] if op.get("env", {}).get("forves_present", True) else "missing"
+        v = judge_forves(op, summ)
+        return v[0] if v else None
     if rp["kind"] == "pair":
         op = {"argv": rp["argv"], "pairs": [[rp["a"], rp["b"]]]}
         st, out = procs.run_sut(pipe.run_compare, op, cpu_s=120)
